@@ -2,11 +2,18 @@ package bloomfilter
 
 import (
 	"encoding/binary"
+	"fmt"
 	"hash/fnv"
+	"io"
 	"math"
 	"os"
 	"sync"
 )
+
+// maxHashFuncs bounds the number of hash functions accepted from a stored
+// filter; calculateOptimalHashFuncs yields 7 for the 1% rate used by the
+// SSTable writer and stays far below this for any useful rate.
+const maxHashFuncs = 64
 
 // BloomFilter is a probabilistic data structure that is used to test whether an element
 // is a member of a set. False positives are possible, but false negatives are not.
@@ -141,10 +148,15 @@ func LoadBloomFilter(filePath string) (*BloomFilter, error) {
 	}
 	defer file.Close()
 
+	stat, err := file.Stat()
+	if err != nil {
+		return nil, err
+	}
+
 	// Read header: size, hash functions, expected elements, insertions
 	header := make([]byte, 32)
-	if _, err := file.Read(header); err != nil {
-		return nil, err
+	if _, err := io.ReadFull(file, header); err != nil {
+		return nil, fmt.Errorf("bloom filter header: %w", err)
 	}
 
 	size := binary.LittleEndian.Uint64(header[0:8])
@@ -152,10 +164,22 @@ func LoadBloomFilter(filePath string) (*BloomFilter, error) {
 	expectedN := binary.LittleEndian.Uint64(header[16:24])
 	insertions := binary.LittleEndian.Uint64(header[24:32])
 
+	// The header is not covered by a checksum: only accept it if it describes
+	// exactly the bit array that is stored behind it. A damaged size would
+	// otherwise be used as an allocation size (panic or out of memory) or as a
+	// zero divisor in hash, a damaged hash function count as a loop bound.
+	if size == 0 || hashFuncs == 0 || hashFuncs > maxHashFuncs {
+		return nil, fmt.Errorf("bloom filter header invalid: size=%d hashFuncs=%d", size, hashFuncs)
+	}
+	if size > math.MaxUint64-7 || (size+7)/8 != uint64(stat.Size()-32) {
+		return nil, fmt.Errorf("bloom filter header invalid: %d bits do not match %d stored bytes",
+			size, stat.Size()-32)
+	}
+
 	// Read bit array
 	bits := make([]byte, (size+7)/8)
-	if _, err := file.Read(bits); err != nil {
-		return nil, err
+	if _, err := io.ReadFull(file, bits); err != nil {
+		return nil, fmt.Errorf("bloom filter bits: %w", err)
 	}
 
 	return &BloomFilter{
